@@ -371,6 +371,20 @@ def explore(fam, tier='quick', budget_s=60, timeout_ms=3000, slow_ms=20000, max_
         res['paths'] += 1
         if status in ('undecided', 'unsupported', 'error'):
             res['undecided'] += 1
+            if status != 'error' and validate:
+                # the path stays undecided (nothing is claimed for it), but the parameter values that steered it are still
+                # replayed on the real library: a violation reproduced there is real, whatever the encoding could not express
+                try:
+                    vals = eng.witness()
+                    core.set_engine(None)
+                    c = run_concrete(fam, vals)
+                    if c['status'] == 'violation':
+                        res['violations'].append(dict(sig=c['violations'][0][0], detail=str(c['violations'][0][1])[:300], family=fam.fid,
+                                                      replayed=True, params={k: str(v) for k, v in vals.items()},
+                                                      concrete_detail='found by float replay of the parameter values of a path the symbolic '
+                                                                      'encoding could not finish (%s)' % status))
+                except BaseException:
+                    pass
             core.set_engine(None)
             continue
         label = '/'.join(ctx.outcomes) if ctx.outcomes else '-'
